@@ -85,6 +85,41 @@ theorem offsets_of_parsed {bs p} (hp : parsePackage bs = .ok p) :
   obtain ⟨_, _, _, h4, h5, _⟩ := offsets_exact (parsed_wf hp) p.content
   exact ⟨h5, h4⟩
 
+/-- **the offsets locate the segments in the INPUT bytes too** (not only in what `write` emits): for every accepted byte
+string the reported payload offset is where the content starts, the header offset is where the main header's intro
+(with whatever reserved bytes the file carries) starts, and offsets + content length account for every input byte -/
+theorem offsets_locate_input {bs p} (hp : parsePackage bs = .ok p) :
+    bs.drop (offsets p.md).payload = p.content
+    ∧ (∃ res : Bytes, res.length = 4 ∧ bs.drop (offsets p.md).hdr = hdrBytes res p.md.header ++ p.content)
+    ∧ bs.take (offsets p.md).sig = writeLead p.md.lead
+    ∧ bs.length = (offsets p.md).payload + p.content.length := by
+  simp only [parsePackage, Out.bind_eq_ok] at hp
+  obtain ⟨⟨m, r⟩, h1, hp⟩ := hp
+  simp only [Out.pure_eq, Out.ok.injEq] at hp
+  subst hp
+  obtain ⟨res1, pad, res2, hr1, hpad, hr2, rfl, wf⟩ := parseMetadata_ok h1
+  have hl := writeLead_length wf.lead
+  have hb (res : Bytes) (hr : res.length = 4) (h : Header) (w : HeaderWF h) : (hdrBytes res h).length = h.size := by
+    simp only [hdrBytes, List.length_append, hmagic, be32_length, writeRaws_length, List.length_map, w.nEq, w.dlEq, hr,
+      List.length_cons, List.length_nil, Header.size, ihs, ies]
+    try omega
+  have hs := hb res1 hr1 m.signature wf.sig
+  have hh := hb res2 hr2 m.header wf.hdr
+  have o1 : (offsets m).sig = (writeLead m.lead).length := by simp [offsets, lds, hl]
+  have o2 : (offsets m).hdr = (writeLead m.lead ++ (hdrBytes res1 m.signature ++ pad)).length := by
+    simp only [offsets, lds, List.length_append, hl, hs, hpad]; omega
+  have o3 : (offsets m).payload = (writeLead m.lead ++ (hdrBytes res1 m.signature ++ pad) ++ hdrBytes res2 m.header).length := by
+    simp only [offsets, lds, List.length_append, hl, hs, hh, hpad]; omega
+  refine ⟨?_, ⟨res2, hr2, ?_⟩, ?_, ?_⟩
+  · show (metaBytes res1 pad res2 m ++ r).drop _ = r
+    rw [o3, metaBytes, List.drop_left]
+  · show (metaBytes res1 pad res2 m ++ r).drop _ = _
+    rw [o2, metaBytes, List.append_assoc, List.drop_left]
+  · show (metaBytes res1 pad res2 m ++ r).take _ = _
+    rw [o1, metaBytes, List.append_assoc, List.append_assoc, List.take_left]
+  · show (metaBytes res1 pad res2 m ++ r).length = _
+    rw [o3, metaBytes, List.length_append]
+
 /-! ### widths (audit a15 / c11): the arithmetic of the CODE, with the widths of its Rust types
 
 `offsets_fit_u64` above is a statement about the model's `Nat` sums. The three expressions below are scraped from
